@@ -16,6 +16,7 @@ import (
 	"reflect"
 	"strconv"
 	"testing"
+	"time"
 )
 
 type govcCfg struct {
@@ -240,6 +241,66 @@ func TestGovcReplay(t *testing.T) {
 						}
 					}
 				}
+			}
+		}
+	}
+	// ---- C09: the part built by reflection (NewFlagSet / parseStructFields, outside the verified subset): every field,
+	// however deeply nested and in both tag syntaxes, is reachable by its own flag and by its own CFG_* variable ----
+	type govcDeep struct {
+		Name   string `flag:"name,nm"`
+		Server struct {
+			Addr string `flag:"|addr|:80"`
+			TLS  struct {
+				Port    int           `flag:"|tls-port|443"`
+				Timeout time.Duration `flag:"tls-timeout,10s"`
+				Inner   struct {
+					On bool `flag:"|deep-on|false"`
+				}
+			}
+		}
+	}
+	deepEnv := []string{"CFG_NAME", "CFG_SERVER_ADDR", "CFG_SERVER_TLS_PORT", "CFG_SERVER_TLS_TIMEOUT", "CFG_SERVER_TLS_INNER_ON", "CFG_TLS_PORT", "CFG_TLS_TIMEOUT", "CFG_INNER_ON", "CFG_ADDR", "CFG_PORT"}
+	clearDeep := func() {
+		for _, e := range deepEnv {
+			os.Unsetenv(e)
+		}
+	}
+	defer clearDeep()
+	for _, viaEnv := range []bool{false, true} {
+		clearEnv()
+		clearDeep()
+		var cfg govcDeep
+		f, e := NewFlagSet(&cfg)
+		if e != nil {
+			report("NewFlagSet on a nested struct: %v", e)
+			break
+		}
+		var args []string
+		if viaEnv {
+			os.Setenv("CFG_NAME", "n2")
+			os.Setenv("CFG_SERVER_ADDR", ":81")
+			os.Setenv("CFG_SERVER_TLS_PORT", "9443")
+			os.Setenv("CFG_SERVER_TLS_TIMEOUT", "3s")
+			os.Setenv("CFG_SERVER_TLS_INNER_ON", "true")
+			os.Setenv("CFG_TLS_PORT", "1") // variables of other paths must not apply
+			os.Setenv("CFG_INNER_ON", "false")
+		} else {
+			args = []string{"-name=n2", "--addr", ":81", "-tls-port=9443", "-tls-timeout", "3s", "-deep-on"}
+		}
+		if err := f.Parse(args); err != nil {
+			report("Parse(%q) on a nested struct (env=%v): %v", args, viaEnv, err)
+			continue
+		}
+		if cfg.Name != "n2" || cfg.Server.Addr != ":81" || cfg.Server.TLS.Port != 9443 || cfg.Server.TLS.Timeout != 3*time.Second || !cfg.Server.TLS.Inner.On {
+			report("nested struct, values given by %s: got %+v, want Name=n2 Addr=:81 Port=9443 Timeout=3s On=true", map[bool]string{false: "flags", true: "their own CFG_* variables"}[viaEnv], cfg)
+		}
+	}
+	clearDeep()
+	{
+		var cfg govcDeep
+		if f, e := NewFlagSet(&cfg); e == nil && f.Parse(nil) == nil {
+			if cfg.Name != "nm" || cfg.Server.Addr != ":80" || cfg.Server.TLS.Port != 443 || cfg.Server.TLS.Timeout != 10*time.Second || cfg.Server.TLS.Inner.On {
+				report("nested struct, nothing given: got %+v, want the tag defaults", cfg)
 			}
 		}
 	}
